@@ -3,7 +3,7 @@ from hypothesis import strategies as st
 from ..runner import Outcome
 from .. import ops as O, eqv
 from ..doc import Doc
-from ..hist import HistoryRun, bundle_sig, is_cycle_error_pair, formulas_by_col, formula_features, cycle_filter, col_kind
+from ..hist import HistoryRun, bundle_sig, is_cycle_error_pair, formulas_by_col, formula_features, cycle_filter, col_kind, all_formulas
 from .. import env
 env.setup()
 import engine as _engine   # noqa: E402
@@ -75,7 +75,7 @@ def run_case(case):
         return True
       snap = tw.snapshot()
       structural, cells = eqv.cells_diff(s.after, snap)
-      real, dropped = cycle_filter(cells, lambda t, c: col_kind(s.after, t, c), formulas_by_col(hr.doc))
+      real, dropped = cycle_filter(cells, lambda t, c: col_kind(s.after, t, c), all_formulas(hr.doc))
       if dropped:
         out.cls('cycle-error-kind-differs(not judged)')
       if structural or real:
